@@ -1,0 +1,20 @@
+//go:build verif
+
+// Contracts for the verification machinery in /verif (govc). Comment-only.
+
+package lossy
+
+// The frame decoder as a whole is outside the verifier's reach; callers only
+// rely on the shape of a successful result (assumed, listed in the evidence).
+//@ func DecodeFrame
+//@   trusted
+//@   modifies nothing
+//@   ensures err == nil ==> dec != nil && width >= 1 && height >= 1 && width <= 16383 && height <= 16383
+//
+//@ func ReleaseDecoder
+//@   trusted
+//@   modifies nothing
+//
+//@ func DecodeAlpha
+//@   property C16 C05
+//@   ensures result1 == nil ==> result0 != nil
